@@ -996,10 +996,57 @@ def _indices(shape):
     return [(i,) + r for i in range(shape[0]) for r in _indices(shape[1:])]
 
 
-def real_dump(d, units, ff, prop_names=None, timestep=0, out=None, explicit=None, pre=False):
+# how a system may hold its time step: System has no such attribute of its own (absent -> the writer says 0), a
+# script sets it from a dump file (int), from numpy bookkeeping (integers of every width, signed or not, 0-d arrays)
+# or as elapsed time / step length (a whole number held as a float: 50.0 / 0.002); None = "not known" -> 0
+TS_FORMS = ['int', 'int', 'float', 'np.float64', 'np.float32', 'np.int64', 'np.int32', 'np.int16', 'np.int8', 'np.uint8',
+            'np.uint16', 'np.uint32', 'np.uint64', '0d-int', '0d-float', '0d-int32', 'np.longdouble']
+
+
+def ts_forms_for(ts):
+    """the forms that hold the whole number `ts` exactly."""
+    np = _np()
+    ok = []
+    for f in TS_FORMS:
+        if f in ('int', '0d-int', 'np.int64'):
+            fits = ts < 2 ** 63
+        elif f in ('float', 'np.float64', '0d-float', 'np.longdouble'):
+            fits = ts < 2 ** 53
+        elif f == 'np.float32':
+            fits = ts < 2 ** 24 or float(np.float32(ts)) == ts
+        else:
+            info = np.iinfo(getattr(np, f.split('.')[-1].replace('0d-', '')))
+            fits = info.min <= ts <= info.max
+        if fits:
+            ok.append(f)
+    return ok
+
+
+def ts_value(ts, form):
+    np = _np()
+    if form == 'int':
+        return int(ts)
+    if form == 'float':
+        return float(ts)
+    if form == '0d-int':
+        return np.array(int(ts))
+    if form == '0d-float':
+        return np.array(float(ts))
+    if form == '0d-int32':
+        return np.array(int(ts), dtype=np.int32)
+    return getattr(np, form.split('.', 1)[1])(ts)
+
+
+def real_dump(d, units, ff, prop_names=None, timestep=0, out=None, explicit=None, pre=False, tsform=None):
     def build(big=False):
         s = build_system(bigger_desc(d) if big else d)
-        if timestep:
+        if tsform == 'none':
+            s.timestep = None
+        elif tsform == 'absent':
+            pass
+        elif tsform is not None:
+            s.timestep = ts_value(max(timestep - (1 if big else 0), 0), tsform)
+        elif timestep:
             s.timestep = timestep - (1 if big else 0)      # what a system loaded from a dump file carries
         return s
     try:
@@ -1178,21 +1225,32 @@ for _i, _c in enumerate('xyz'):
     DUMPCOLS['angmom' + _c] = ('ang-mom', 'ang_momentum', _i)
     DUMPCOLS['tq' + _c] = ('force*length', 'torque', _i)
 
-# LAMMPS `units` manual page, for the kinds per-atom columns use, written as unit expressions
+# LAMMPS `units` manual page, every style, every quantity a per-atom column can carry, written as unit expressions
+# over numericalunits' names and plain numbers (evaluated by `nu_value`, never by atomman).  Quantities the page does
+# not list for a style (electron: density, torque) are left out: the oracle calls them undefined.
+#   cgs: charge in statcoulombs; 1 C = 10 c statC with c = 299792458 (the number of m/s, exact by the SI definition),
+#        dipole in statcoulomb cm.   electron: dipole in Debye = 1e-18 statC cm = 1e-21/c C m; velocity in Bohr per
+#        atomic time unit, taken as hbar/Hartree (the page's bracketed "1.03275e-15 seconds" is sqrt(amu Bohr^2/Hartree):
+#        candidate `electron-velocity-atu` in docs/C07.md, not checked).
 ORACLE_UNITS = {
     'lj': {},
-    'real': {'mass': 'g/mol', 'length': 'angstrom', 'time': 'fs', 'velocity': 'angstrom/fs',
-             'force': 'kcal/(mol*angstrom)', 'charge': 'e', 'dipole': 'e*angstrom', 'density': 'g/cm^3'},
-    'metal': {'mass': 'g/mol', 'length': 'angstrom', 'time': 'ps', 'velocity': 'angstrom/ps', 'force': 'eV/angstrom',
-              'charge': 'e', 'dipole': 'e*angstrom', 'density': 'g/cm^3'},
-    'si': {'mass': 'kg', 'length': 'm', 'time': 's', 'velocity': 'm/s', 'force': 'N', 'charge': 'C', 'dipole': 'C*m',
-           'density': 'kg/m^3'},
-    'cgs': {'mass': 'g', 'length': 'cm', 'time': 's', 'velocity': 'cm/s', 'force': 'dyn', 'density': 'g/cm^3'},
-    'electron': {'mass': 'amu', 'length': 'aBohr', 'time': 'fs', 'charge': 'e'},
-    'micro': {'mass': 'pg', 'length': 'um', 'time': 'us', 'velocity': 'um/us', 'force': 'pg*um/us^2',
-              'charge': '1e-12*C', 'dipole': '1e-12*C*um', 'density': 'pg/um^3'},
-    'nano': {'mass': '1e-18*g', 'length': 'nm', 'time': 'ns', 'velocity': 'nm/ns', 'force': '1e-18*g*nm/ns^2',
-             'charge': 'e', 'dipole': 'e*nm', 'density': '1e-18*g/nm^3'},
+    'real': {'mass': 'g/mol', 'length': 'angstrom', 'time': 'fs', 'energy': 'kcal/mol', 'velocity': 'angstrom/fs',
+             'force': 'kcal/(mol*angstrom)', 'torque': 'kcal/mol', 'charge': 'e', 'dipole': 'e*angstrom',
+             'density': 'g/cm^3'},
+    'metal': {'mass': 'g/mol', 'length': 'angstrom', 'time': 'ps', 'energy': 'eV', 'velocity': 'angstrom/ps',
+              'force': 'eV/angstrom', 'torque': 'eV', 'charge': 'e', 'dipole': 'e*angstrom', 'density': 'g/cm^3'},
+    'si': {'mass': 'kg', 'length': 'm', 'time': 's', 'energy': 'J', 'velocity': 'm/s', 'force': 'N', 'torque': 'N*m',
+           'charge': 'C', 'dipole': 'C*m', 'density': 'kg/m^3'},
+    'cgs': {'mass': 'g', 'length': 'cm', 'time': 's', 'energy': 'erg', 'velocity': 'cm/s', 'force': 'dyn',
+            'torque': 'dyn*cm', 'charge': 'C/2997924580', 'dipole': 'C*cm/2997924580', 'density': 'g/cm^3'},
+    'electron': {'mass': 'amu', 'length': 'aBohr', 'time': 'fs', 'energy': 'Hartree', 'velocity': 'aBohr*Hartree/hbar',
+                 'force': 'Hartree/aBohr', 'charge': 'e', 'dipole': '1e-21*C*m/299792458'},
+    'micro': {'mass': 'pg', 'length': 'um', 'time': 'us', 'energy': 'pg*um^2/us^2', 'velocity': 'um/us',
+              'force': 'pg*um/us^2', 'torque': 'pg*um^2/us^2', 'charge': '1e-12*C', 'dipole': '1e-12*C*um',
+              'density': 'pg/um^3'},
+    'nano': {'mass': '1e-18*g', 'length': 'nm', 'time': 'ns', 'energy': '1e-18*g*nm^2/ns^2', 'velocity': 'nm/ns',
+             'force': '1e-18*g*nm/ns^2', 'torque': '1e-18*g*nm^2/ns^2', 'charge': 'e', 'dipole': 'e*nm',
+             'density': '1e-18*g/nm^3'},
 }
 _ofac_cache = {}
 
@@ -1242,9 +1300,18 @@ def inv3(V):
     return [[x / det for x in r] for r in adj]
 
 
+_inv_memo = {}
+
+
 def rel_of(p, V, O):
     """relative coordinates s with p = s·V + O."""
-    Vi = inv3(V)
+    key = id(V)
+    hit = _inv_memo.get(key)
+    if hit is None or hit[0] is not V or hit[1] != V:
+        if len(_inv_memo) > 64:
+            _inv_memo.clear()
+        hit = _inv_memo[key] = (V, [list(r) for r in V], inv3(V))
+    Vi = hit[2]
     dlt = [p[j] - O[j] for j in range(3)]
     return [sum(dlt[j] * Vi[j][i] for j in range(3)) for i in range(3)]
 
@@ -1253,10 +1320,31 @@ def cart_of(s, V, O):
     return [sum(s[i] * V[i][j] for i in range(3)) + O[j] for j in range(3)]
 
 
+class _FrRows:
+    """the positions as exact rationals, converted row by row when they are asked for (a system of 140 000 atoms is
+    compared on a sample of its rows)."""
+
+    def __init__(self, rows):
+        self.rows = rows
+        self.memo = {}
+
+    def __len__(self):
+        return len(self.rows)
+
+    def __getitem__(self, k):
+        r = self.memo.get(k)
+        if r is None:
+            r = self.memo[k] = [F(v) for v in self.rows[k]]
+        return r
+
+    def __iter__(self):
+        return (self[k] for k in range(len(self.rows)))
+
+
 def fr_sys(d):
     V = [[F(v) for v in r] for r in d['vects']]
     O = [F(v) for v in d['origin']]
-    P = [[F(v) for v in p] for p in d['pos']]
+    P = [[F(v) for v in p] for p in d['pos']] if len(d['pos']) <= 600 else _FrRows(d['pos'])
     return V, O, P
 
 
@@ -1393,8 +1481,31 @@ def extra_column(d, name):
     return prop, flat
 
 
-def py_parse_data(text, style):
-    """LAMMPS read_data rules. Raises ValueError on a malformed file."""
+def sample_rows(n):
+    """which rows of a file with n atoms are read and compared number by number: all of them up to 600 atoms; for a
+    larger system the first and last three, every row within two of a power of two or of a multiple of 65536 / 4096 /
+    1000 (first and last rows of blocks of any such size), and 200 rows drawn from a generator seeded with n.  Counts,
+    words per line and the ids are always checked on every row."""
+    if n <= 600:
+        return None
+    rows = set(range(3)) | set(range(n - 3, n))
+    k = 1
+    while (1 << k) <= n + 2:
+        rows |= set(range((1 << k) - 2, (1 << k) + 3))
+        k += 1
+    for block in (65536, 4096, 1000, 10000):
+        for m in range(block, n + 3, block):
+            if block >= 4096 or m <= 20 * block:
+                rows |= set(range(m - 2, m + 3))
+    r = random.Random(n)
+    rows |= {r.randrange(n) for _ in range(200)}
+    return sorted(x for x in rows if 0 <= x < n)
+
+
+def py_parse_data(text, style, rows=None):
+    """LAMMPS read_data rules. Raises ValueError on a malformed file.  With `rows` (a sorted list of row numbers)
+    only these lines of the Atoms / Velocities sections are converted to numbers; of the others the number of words
+    and the id are read."""
     lines = text.split('\n')
     if lines and lines[-1] == '':
         lines.pop()
@@ -1443,15 +1554,22 @@ def py_parse_data(text, style):
         body = [l.split('#')[0].split() for l in lines[i + 2:i + 2 + cnt]]
         if len(body) != cnt or any(not b for b in body):
             raise ValueError(f'section {name} has fewer than {cnt} lines')
+        if i + 2 + cnt < len(lines) and lines[i + 2 + cnt].split('#')[0].split():
+            raise ValueError(f'section {name} has more than the {cnt} lines the header announces: after line {cnt} comes '
+                             f'{lines[i + 2 + cnt][:60]!r} instead of a blank line')
         sections[name] = body
         i += 2 + cnt
     if 'Atoms' not in sections:
         raise ValueError('no Atoms section')
     lay = layout_of(LAYOUT, style)
+    rowset = None if rows is None else set(rows)
     atoms = []
-    for row in sections['Atoms']:
+    for k, row in enumerate(sections['Atoms']):
         if len(row) not in (len(lay), len(lay) + 3):
             raise ValueError(f'Atoms line has {len(row)} words, atom_style {style} needs {len(lay)} (+3 image flags)')
+        if rowset is not None and k not in rowset:
+            atoms.append({'id': p_int(row[0])})
+            continue
         vals = [Fraction(p_int(t)) if f[0] in INT_FIELDS else p_num(t) for f, t in zip(lay, row)]
         img = [p_int(t) for t in row[len(lay):]] or [0, 0, 0]
         atoms.append({'vals': vals, 'image': img})
@@ -1459,9 +1577,12 @@ def py_parse_data(text, style):
     if 'Velocities' in sections:
         vl = layout_of(VEL_LAYOUT, style)
         vel = []
-        for row in sections['Velocities']:
+        for k, row in enumerate(sections['Velocities']):
             if len(row) != len(vl):
                 raise ValueError(f'Velocities line has {len(row)} words, atom_style {style} needs {len(vl)}')
+            if rowset is not None and k not in rowset:
+                vel.append([Fraction(p_int(row[0]))])
+                continue
             vel.append([Fraction(p_int(row[0]))] + [p_num(t) for t in row[1:]])
     tilt = hdr.get('tilt', (Fraction(0),) * 3)
     return {'natoms': n, 'ntypes': hdr['ntypes'], 'hilo': list(hdr['x'] + hdr['y'] + hdr['z'] + tuple(tilt)),
@@ -1535,6 +1656,9 @@ def check_data(d, style, units, ff, natypes, parsed, info=None, fname=None):
         if d['pbc'][i] and abs(so[i]) > ck.tol(Fraction(1), 4) * sum(abs(Vinv[j][i]) for j in range(3)) + Fraction(1, 10 ** 9):
             ck.fail('origin', f'written origin is shifted along periodic direction {i} by {float(so[i])} cell vectors')
     for k, a in enumerate(parsed['atoms'][:n]):
+        if 'vals' not in a:
+            ids.append(Fraction(a['id']))         # a row outside the sample of a large system: the id only
+            continue
         fv = {f[0]: v for f, v in zip(lay, a['vals'])}
         ids.append(fv['atom-ID'])
         if fv['atom-type'] != d['atype'][k]:
@@ -1570,7 +1694,14 @@ def check_data(d, style, units, ff, natypes, parsed, info=None, fname=None):
                 continue
             ck.own(f'{f[0]}[{k}]', v, want / fac if fac else want)
     if sorted(ids) != [Fraction(i) for i in range(1, len(ids) + 1)]:
-        ck.fail('ids', f'atom ids are not 1..N: {[int(i) for i in ids][:12]}')
+        bad = [int(i) for i in ids][:12]
+        if len(ids) > 600:
+            cnt = {}
+            for i in ids:
+                cnt[i] = cnt.get(i, 0) + 1
+            twice = sorted(int(i) for i, m in cnt.items() if m > 1)[:6]
+            bad = f'{len(ids)} ids, {len(cnt)} distinct, smallest {int(min(ids))}, largest {int(max(ids))}, more than once: {twice}'
+        ck.fail('ids', f'atom ids are not 1..N, each once: {bad}')
     has_vel = 'velocity' in d['props']
     if has_vel != (parsed['vel'] is not None):
         ck.fail('velocities-section', f'system has velocities: {has_vel}; file has a Velocities section: {not has_vel}')
@@ -1580,7 +1711,7 @@ def check_data(d, style, units, ff, natypes, parsed, info=None, fname=None):
             ck.fail('velocity-ids', 'Velocities ids are not 1..N')
         for r in parsed['vel']:
             k = int(r[0]) - 1
-            if not 0 <= k < n:
+            if not 0 <= k < n or len(r) == 1:
                 continue
             for f, v in zip(vl[1:], r[1:]):
                 fac = oracle_factor(units, f[1])
@@ -1683,7 +1814,18 @@ def check_dump(d, units, ff, parsed, timestep=0):
             colmap.append((None,) + ex if ex else None)
     if len(set(cols)) != len(cols):
         ck.fail('column', f'column names are not distinct: {cols}')
+    rowset = sample_rows(n)
+    rowset = None if rowset is None else set(rowset)
+    idcol = cols.index('id') if 'id' in cols else None
     for k, row in enumerate(parsed['rows'][:n]):
+        if rowset is not None and k not in rowset:
+            # a row outside the sample of a large system: the id only
+            if idcol is not None:
+                if _INT.match(row[idcol]):
+                    ids.append(Fraction(int(row[idcol])))
+                else:
+                    ck.fail('int:id', f'column id must be an integer, the file has {row[idcol]!r}')
+            continue
         for c, t, cmap in zip(cols, row, colmap):
             if cmap is None:
                 continue
@@ -1728,13 +1870,18 @@ def check_dump(d, units, ff, parsed, timestep=0):
                     ck.num(f'unscaled {names3[j]}[{k}]', p[j], P[k][j] / lf, kk)
     if 'id' in cols:
         if len(set(ids)) != len(ids):
-            ck.fail('ids', f'atom ids are not unique: {[int(i) for i in ids][:12]}')
+            cnt = {}
+            for i in ids:
+                cnt[i] = cnt.get(i, 0) + 1
+            ck.fail('ids', f'atom ids are not unique: {len(ids)} ids, {len(cnt)} distinct, more than once: '
+                           f'{sorted(int(i) for i, m in cnt.items() if m > 1)[:8]}')
         if 'atom_id' not in d['props'] and sorted(ids) != [Fraction(i) for i in range(1, len(ids) + 1)]:
-            ck.fail('ids', f'atom ids are not 1..N: {[int(i) for i in ids][:12]}')
+            ck.fail('ids', f'atom ids are not 1..N: {[int(i) for i in ids][:12]} ... smallest {int(min(ids))}, largest '
+                           f'{int(max(ids))}, {len(ids)} rows')
     return ck.fails
 
 
-def py_parse_poscar(text):
+def py_parse_poscar(text, rows=None):
     lines = text.split('\n')
     if len(lines) < 8:
         raise ValueError('fewer than 8 lines')
@@ -1770,8 +1917,21 @@ def py_parse_poscar(text):
     body = lines[i:i + n]
     if len(body) != n:
         raise ValueError(f'counts sum to {n}, {len(body)} coordinate lines')
-    raw = [[p_num(x) for x in l.split()[:3]] for l in body]
-    if any(len(r) != 3 for r in raw):
+    if rows is None:
+        raw = [[p_num(x) for x in l.split()[:3]] for l in body]
+    else:
+        # a large system: every line must hold three numbers, only the sampled ones are converted
+        rowset = set(rows)
+        raw = []
+        for k, l in enumerate(body):
+            t = l.split()[:3]
+            if k in rowset:
+                raw.append([p_num(x) for x in t])
+            else:
+                if len(t) != 3 or not all(_FLT.match(x) for x in t):
+                    raise ValueError(f'coordinate line {k + 1}: {l[:60]!r}')
+                raw.append(None)
+    if any(r is not None and len(r) != 3 for r in raw):
         raise ValueError('coordinate line')
     return {'scale': scale, 'lattice': lat, 'symbols': symbols, 'counts': counts, 'cart': cart, 'raw': raw}
 
@@ -1809,7 +1969,11 @@ def check_poscar(d, ff, coordstyle, scale, symbols, parsed):
     if len(parsed['raw']) != len(order):
         ck.fail('count', f'{len(parsed["raw"])} coordinate lines for {len(order)} atoms')
         return ck.fails
-    for r, k in zip(parsed['raw'], order):
+    rowset = sample_rows(len(order))
+    rowset = None if rowset is None else set(rowset)
+    for i, (r, k) in enumerate(zip(parsed['raw'], order)):
+        if rowset is not None and i not in rowset:
+            continue
         if parsed['cart']:
             for j in range(3):
                 got = r[j] * parsed['scale']
@@ -2001,9 +2165,15 @@ def gen_dump_case(rng, i, wu_p=0.25, raw=0.12, specials=0.0):
         explicit = rng.choice(['prop_info', 'lists'])
     out, pre = gen_channel(rng, 'a.dump')
     wu = gen_wu(rng, wu_p)
-    return {'kind': 'dump', 'd': scale_desc(d, wu), 'units': units, 'ff': ff, 'prop_names': prop_names, 'explicit': explicit,
-            'timestep': rng.choice([0, 0, 1, 12, 250000, 10 ** 9, 2 ** 31, 3 * 10 ** 9, 2 ** 40 + 7]), 'out': out, 'pre': pre,
-            'wu': wu}
+    ts = rng.choice([0, 0, 1, 12, 100, 250000, 25000, 10 ** 9, 2 ** 31, 3 * 10 ** 9, 2 ** 40 + 7, 127, 255, 65535, 2 ** 24 + 2])
+    c = {'kind': 'dump', 'd': scale_desc(d, wu), 'units': units, 'ff': ff, 'prop_names': prop_names, 'explicit': explicit,
+         'timestep': ts, 'out': out, 'pre': pre, 'wu': wu}
+    if rng.random() < 0.6:
+        # the numeric type the attribute happens to have; None / no attribute at all: step 0
+        c['tsform'] = rng.choice(ts_forms_for(ts)) if rng.random() < 0.85 else rng.choice(['none', 'absent'])
+        if c['tsform'] in ('none', 'absent'):
+            c['timestep'] = 0
+    return c
 
 
 ELEMENTS = ['Al', 'Cu', 'Fe', 'Ni', 'O', 'U', 'W', 'Zr', 'Ag', 'Au', 'Pt', 'Pd', 'Ti', 'Nb', 'Mo', 'Ta', 'Si', 'Ge']
@@ -2191,7 +2361,7 @@ def real_call(c):
                          c.get('potential'))
     if c['kind'] == 'dump':
         return real_dump(c['d'], c['units'], c['ff'], c['prop_names'], c.get('timestep', 0), c.get('out'),
-                         c.get('explicit'), c.get('pre', False))
+                         c.get('explicit'), c.get('pre', False), c.get('tsform'))
     if c['kind'] == 'poscar':
         return real_poscar(c['d'], c['ff'], c['coordstyle'], c['scale'], c['header'], c.get('symarg', c['symbols']),
                            c.get('out'), c.get('pre', False))
@@ -2210,12 +2380,19 @@ def case_sample(c):
 def case_replay(c):
     d = c['d']
     r = {k: v for k, v in c.items() if k != 'd'}
+    if c.get('sized'):
+        return r                       # the system is rebuilt from the specification
     r['d'] = {k: (v if k != 'props' else {n: [p[0], list(p[1]), p[2]] for n, p in v.items()}) for k, v in d.items()}
     return r
 
 
 def case_from_replay(r):
     c = dict(r)
+    if c.get('sized') and 'd' not in r:
+        c['d'] = sized_desc(c['sized'])
+        if c.get('cols') is not None:
+            c['cols'] = [tuple(x) for x in c['cols']]
+        return c
     d = dict(r['d'])
     d['props'] = {n: (bool(p[0]), tuple(p[1]), p[2]) for n, p in d['props'].items()}
     c['d'] = d
@@ -2581,6 +2758,158 @@ def retarget(rng, c, style, units, d):
     return c
 
 
+# ----------------------------------------------------------------------------------------
+# systems of a given SIZE: block-wise evaluation, fast paths and compact integer types switch on at a number of
+# atoms (blocks of 2048 / 4096 / 65536 rows, n = k*block + 1, ids that no longer fit 8 / 16 bits)
+# ----------------------------------------------------------------------------------------
+MEDIUM_SIZES = sorted({(1 << k) + e for k in range(7, 14) for e in (-1, 0, 1)} | {1000, 1001, 2000, 4999, 5000, 10001})
+BIG_SIZES_A = [65535, 65536, 65537, 65538, 70000, 70001, 66000]
+BIG_SIZES_B = [131071, 131072, 131073, 131074, 140000, 2 * 70001, 196609]
+
+
+def sized_desc(spec):
+    """the system of a sized case, rebuilt from its specification {'n', 'seed', 'props', 'ntypes', 'ids'} (the replay
+    file stores the specification, not 140 000 positions): atoms on the sites (i, j, k)*2 + 1/2 of a cubic grid in a
+    cell whose edges are powers of two with dyadic tilts (the float arithmetic of the writers is exact), every 97th
+    atom moved out of the cell by whole cell vectors along the periodic directions; per-atom values multiples of 1/16."""
+    np = _np()
+    n, seed = spec['n'], spec['seed']
+    rs = np.random.RandomState(seed)
+    m = 1
+    while m ** 3 < n:
+        m += 1
+    L = 2.0
+    while L < 2.0 * m:
+        L *= 2.0
+    g = np.array(np.meshgrid(np.arange(m), np.arange(m), np.arange(m), indexing='ij')).reshape(3, -1).T[:n]
+    g = g[rs.permutation(n)] if spec.get('shuffle', True) else g
+    pos = g * 2.0 + 0.5
+    tri = seed % 3
+    xy, xz, yz = [(0.0, 0.0, 0.0), (L / 8, -L / 4, L / 8), (0.0, 0.0, -3 * L / 8)][tri]
+    vects = np.array([[L, 0.0, 0.0], [xy, L, 0.0], [xz, yz, L]])
+    origin = np.array([(seed % 5) - 2.0, 0.0, (seed % 7) * 0.5])
+    # the sites are relative coordinates of an orthogonal grid; in the tilted cell use them as box-relative ones
+    pos = (pos / L) @ vects + origin
+    pbc = [bool((seed >> i) & 1) for i in range(3)] if seed % 4 else [True, True, True]
+    out = np.arange(0, n, 97)
+    for i in range(3):
+        if pbc[i]:
+            pos[out] += np.outer(rs.randint(-2, 3, size=len(out)), vects[i])
+    ntypes = spec.get('ntypes', 2)
+    atype = 1 + rs.randint(0, ntypes, size=n)
+    atype[:ntypes] = np.arange(1, ntypes + 1)[:n]
+    props = {}
+    if spec.get('ids') == 'reversed':
+        props['atom_id'] = (True, (), [[n - i] for i in range(n)])
+    elif spec.get('ids') == 'odd':
+        props['atom_id'] = (True, (), [[2 * i + 1] for i in range(n)])
+    for name in spec.get('props', []):
+        if name == 'm_id':
+            props[name] = (True, (), (1 + rs.randint(0, 50, size=(n, 1))).tolist())
+        else:
+            nc = 3 if name in ('velocity', 'force') else 1
+            props[name] = (False, () if nc == 1 else (3,), (rs.randint(-128, 129, size=(n, nc)) / 16).tolist())
+    return {'pbc': pbc, 'vects': vects.tolist(), 'origin': origin.tolist(), 'atype': atype.tolist(), 'natypes': int(max(atype.max(), ntypes)),
+            'pos': pos.tolist(), 'props': props, 'symbols': None, 'regime': 'grid'}
+
+
+def sized_case(rng, kind, n):
+    """one writer on a system of exactly n atoms with few properties."""
+    seed = rng.randint(1, 10 ** 6)
+    ff = rng.choice(['f5', 'f3', 'f8', 'f13', 'e8'])
+    if kind == 'data':
+        style = rng.choice(['atomic', 'atomic', 'charge', 'molecular'])
+        props = [p[0] for p in needed_props(style, rng.random() < 0.4)]
+        spec = {'n': n, 'seed': seed, 'props': props, 'ntypes': rng.randint(1, 3)}
+        c = {'kind': 'data', 'style': style, 'units': 'metal', 'ff': ff, 'natypes': None, 'fname': None, 'opts': {}, 'pre': False,
+             'wu': None}
+        if rng.random() < 0.3:
+            c['opts'] = {'safecopy': True}
+    elif kind == 'dump':
+        spec = {'n': n, 'seed': seed, 'props': [p for p in ('velocity', 'charge') if rng.random() < 0.3], 'ntypes': rng.randint(1, 3),
+                'ids': rng.choice([None, None, 'reversed', 'odd'])}
+        pn = None
+        if rng.random() < 0.4:
+            pn = ['atom_id', 'atype'] + rng.sample(['pos', 'spos', 'upos', 'supos'], 2) + spec['props']
+        c = {'kind': 'dump', 'units': 'metal', 'ff': ff, 'prop_names': pn, 'explicit': None,
+             'timestep': rng.choice([0, n, 2 * n + 1]), 'out': None, 'pre': False, 'wu': None}
+    elif kind == 'poscar':
+        spec = {'n': n, 'seed': seed, 'props': [], 'ntypes': rng.randint(1, 4)}
+        c = {'kind': 'poscar', 'coordstyle': rng.choice(['direct', 'cartesian']), 'scale': rng.choice([1.0, 2.0, 0.5]),
+             'symbols': None, 'symarg': None, 'header': 'sized', 'ff': rng.choice(['f8', 'f13', 'e13', 'f5']), 'out': None, 'pre': False}
+    else:
+        spec = {'n': n, 'seed': seed, 'props': [p for p in ('velocity', 'charge', 'm_id') if rng.random() < 0.4],
+                'ntypes': rng.randint(1, 3)}
+        c = {'kind': 'table', 'units': 'metal', 'ff': ff, 'header': rng.random() < 0.5, 'out': None, 'pre': False, 'wu': None}
+    if n > 20000 and rng.random() < 0.5 and kind != 'poscar':
+        # a large file through a file name / an open stream as well
+        names = {'data': 'atom.dat', 'dump': 'a.dump', 'table': 'table.txt'}
+        if kind == 'data':
+            c['fname'] = rng.choice([names[kind], '<stream>'])
+        else:
+            c['out'] = rng.choice(['path:' + names[kind], 'stream'])
+    c['sized'] = spec
+    c['d'] = sized_desc(spec)
+    if kind == 'table':
+        if rng.random() < 0.5:
+            c['cols'], c['defaults'] = default_table_cols(c['d']), rng.random() < 0.5
+        else:
+            cols = [('a_id', 'none', ['id']), ('atype', 'none', ['type']), ('pos', rng.choice(['length', 'scaled']), ['x', 'y', 'z'])]
+            kinds = {'velocity': 'velocity', 'charge': 'charge'}
+            for name, (_ii, shape, _a) in c['d']['props'].items():
+                cols.append((name, kinds.get(name, 'none'), [name] if not shape else [f'{name}{a}' for a in 'xyz']))
+            c['cols'], c['defaults'] = cols, False
+    return c
+
+
+def sized_cases(rng, sizes, kinds=('data', 'dump', 'poscar', 'table'), per_size=None):
+    """`per_size` None: every size through every writer; k: k writers per size, taken in turn."""
+    out = []
+    j = rng.randrange(len(kinds))
+    for n in sizes:
+        ks = kinds if per_size is None else [kinds[(j + i) % len(kinds)] for i in range(per_size)]
+        j += per_size or 0
+        for kind in ks:
+            out.append(sized_case(rng, kind, n))
+    return out
+
+
+# every unit-bearing standard column of a dump file / kind of table column (dump manual page + LAMMPS units page)
+UNIT_PROPS = [('velocity', 0, 3), ('force', 0, 3), ('charge', 0, 1), ('mass', 0, 1), ('radius', 0, 1), ('diameter', 0, 1),
+              ('mu', 0, 3), ('mu_mag', 0, 1), ('ang_velocity', 0, 3), ('ang_momentum', 0, 3), ('torque', 0, 3)]
+TABLE_KINDS = {'velocity': 'velocity', 'force': 'force', 'charge': 'charge', 'mass': 'mass', 'radius': 'length',
+               'mu': 'dipole', 'ang_velocity': 'ang-vel', 'ang_momentum': 'ang-mom', 'torque': 'force*length',
+               'density': 'density', 'volume': 'volume'}
+
+
+def unit_matrix_cases(rng):
+    """EVERY unit-bearing column kind in EVERY unit style, under atomman's default working units, a named and a
+    random configuration: a dump file holding all standard unit-bearing per-atom properties, and a table whose
+    columns are converted with each kind of unit of the style.  Written with a %e format, so that every factor shows
+    in the digits whatever its size (a fixed-point format prints a charge in picocoulombs as 0.00000).  The expected
+    factor is the oracle's (`oracle_factor`: the units page evaluated with numericalunits' constants)."""
+    from atomman.lammps import style as lstyle
+    out = []
+    for un in UNIT_STYLES:
+        for wu in (None, dict(rng.choice(WU_NAMED)), {'seed': rng.randint(1, 10 ** 6)}):
+            d = gen_desc(rng, 'generic', UNIT_PROPS, nmax=4, many_types=0.0)
+            d.pop('masses', None)
+            out.append({'kind': 'dump', 'd': scale_desc(d, wu), 'units': un, 'ff': rng.choice(['e13', 'e8', 'e10']),
+                        'prop_names': None, 'explicit': None, 'timestep': rng.choice([0, 7, 4000]), 'out': None,
+                        'pre': False, 'wu': wu})
+            lu = lstyle.unit(un)
+            props = [(p, 0, 3 if p in ('velocity', 'force', 'mu', 'ang_velocity', 'ang_momentum', 'torque') else 1)
+                     for p, kd in TABLE_KINDS.items() if all(x in lu and lu[x] is not None for x in kd.split('*'))]
+            d = gen_desc(rng, 'generic', props, nmax=4, many_types=0.0)
+            d.pop('masses', None)
+            cols = [('atype', 'none', ['type']), ('pos', 'length' if lu['length'] is not None else 'none', ['x', 'y', 'z'])]
+            for p, _i, nc in props:
+                cols.append((p, TABLE_KINDS[p], [p] if nc == 1 else [f'{p}_{a}' for a in 'xyz']))
+            out.append({'kind': 'table', 'd': scale_desc(d, wu), 'units': un, 'ff': rng.choice(['e13', 'e8', 'e10']),
+                        'cols': cols, 'header': True, 'out': None, 'pre': False, 'wu': wu, 'defaults': False})
+    return out
+
+
 def matrix_cases(rng):
     """the combinations every run covers whatever the random stream draws:
     every writer x output route (file name / open stream) x target (new / existing and not empty);
@@ -2624,6 +2953,15 @@ def matrix_cases(rng):
                         c['ff'] = pick_format(rng, 'nano')
                     c['d'] = scale_desc(c['d'], c['wu'])
                 out.append(c)
+    out += unit_matrix_cases(rng)
+    # the time step of a dump file in every numeric form a system may hold it
+    for form in sorted(set(TS_FORMS)) + ['none', 'absent']:
+        k += 1
+        c = gen_dump_case(rng, k, wu_p=0.0)
+        ts = 0 if form in ('none', 'absent') else rng.choice([t for t in (25000, 1200000, 100, 4000, 2 ** 31 + 5, 0, 7)
+                                                               if form in ts_forms_for(t)])
+        c['timestep'], c['tsform'] = ts, form
+        out.append(c)
     for give in ((True, True), (True, False), (False, True), (False, False)):
         for un in ('si', 'real', 'nano'):
             k += 1
@@ -2661,6 +2999,8 @@ def correspond(ctx):
     cases = [gen_data_case(rng, i) for i in range(nd)] + [gen_dump_case(rng, i) for i in range(nu)] \
         + [gen_poscar_case(rng, i) for i in range(npo)] + [gen_table_case(rng, i) for i in range(nt)]
     cases += matrix_cases(rng)
+    # systems of 2^k - 1, 2^k, 2^k + 1 (k = 7..13), 1000, 5000, 10001 atoms, one writer each (taken in turn)
+    cases += sized_cases(rng, MEDIUM_SIZES if not ctx.thorough else MEDIUM_SIZES + [16383, 16385, 32769], per_size=1)
     # hybrids whose sub-styles define the same unit-bearing column, each under a unit style with a charge / mass /
     # density / length factor other than one (the model converts every column exactly once)
     for k, st in enumerate(SHARED_HYBRIDS):
@@ -2772,14 +3112,14 @@ def _oracle_case(ctx, c, report):
         return
     try:
         if kind == 'data':
-            parsed = py_parse_data(text, c['style'])
+            parsed = py_parse_data(text, c['style'], sample_rows(len(c['d']['atype'])))
             fails = check_data(c['d'], c['style'], c['units'], c['ff'], c['natypes'] or c['d']['natypes'], parsed,
                                info=real[2], fname=info_fname(c))
         elif kind == 'dump':
             parsed = py_parse_dump(text)
             fails = check_dump(c['d'], c['units'], c['ff'], parsed, c.get('timestep', 0))
         else:
-            parsed = py_parse_poscar(text)
+            parsed = py_parse_poscar(text, sample_rows(len(c['d']['atype'])))
             fails = check_poscar(c['d'], c['ff'], c['coordstyle'], c['scale'], c['symbols'], parsed)
     except ValueError as e:
         report(f'{kind}:malformed', f'{kind} file is not well-formed under the format rules: {e}', rp)
@@ -2807,11 +3147,15 @@ def check_table(ctx, c, text, report, rp):
     V, O, P = fr_sys(d)
     f = unit_factors(c['units'])
     ck = Checker(c['ff'], magnitude(d, f.get('length') or None))
+    rowset = sample_rows(n)
+    rowset = None if rowset is None else set(rowset)
     for k, l in enumerate(lines):
         toks = words(l)
         if len(toks) != len(names):
             report('table:row', f'row {k} has {len(toks)} words for {len(names)} columns: {l[:200]!r}', rp)
             return
+        if rowset is not None and k not in rowset:
+            continue
         j = 0
         for prop, us, nm in c['cols']:
             for comp in range(len(nm)):
@@ -3028,6 +3372,11 @@ def search(ctx, broken):
         c['ff'] = pick_format(rng, un)
         base.append(c)
     base += matrix_cases(rng)
+    # sizes: every writer on 2^k - 1, 2^k, 2^k + 1 atoms (k = 7..13) and a few more; one system of about 70 000 and one
+    # of about 140 000 atoms (just below / at / above 65536 and 131072 among them) through every writer
+    base += sized_cases(rng, MEDIUM_SIZES)
+    for _ in range(ctx.n(1, 3)):
+        base += sized_cases(rng, [rng.choice(BIG_SIZES_A), rng.choice(BIG_SIZES_B)])
     # the search also draws what the model has no counterpart for: %g formats, values at the edges of the double range
     cases = base + [gen_data_case(rng, i) for i in range(nd)] + [gen_dump_case(rng, i, specials=0.15) for i in range(nu)] \
         + [gen_poscar_case(rng, i) for i in range(npo)] + [gen_table_case(rng, i, specials=0.25) for i in range(nt)]
